@@ -1166,6 +1166,15 @@ func (rn *runner) iteration(i int) {
 					pts.A = append(pts.A, g.point(spec, g.r.Chance(85)))
 				}
 			}
+			// a batch the shard refuses although the request is valid: an id that exists already,
+			// or the same id twice (rolled back transaction, failed range in a 200 answer)
+			if api == "v2" && g.r.Chance(10) && len(pts.A) > 0 {
+				if id := rn.someKnown(key); id != "" && g.r.Bool() {
+					pts.A[0].Set("_id", Str(id))
+				} else if len(pts.A) > 1 && pts.A[0].Get("_id") != nil {
+					pts.A[1].Set("_id", pts.A[0].Get("_id").Clone())
+				}
+			}
 			body = Obj("points", pts)
 		case "Update":
 			pts := &N{K: 'a'}
